@@ -1,3 +1,5 @@
+//go:debug asynctimerchan=0
+
 package main
 
 // Entry point of the simulator binary (a test binary of the shipped package
@@ -88,6 +90,7 @@ func workerMain() int {
 	seed := envU64("VERIF_SEED", 1)
 	tier := os.Getenv("VERIF_TIER")
 	from, to := envInt("VERIF_FROM", 0), envInt("VERIF_TO", 0)
+	genTotal, genRaceFrac = envInt("VERIF_TOTAL", 0), cd.RaceFrac
 	outPath := os.Getenv("VERIF_OUT")
 	env, err := setupEnv()
 	if err != nil {
